@@ -11,11 +11,11 @@ from vmc import core, bfs, enum
 from props import chanflow
 
 PID = "C20"
-SHARD_WALL_CAP = 150     # seconds per BFS shard; reported as a cap when hit
+SHARD_WALL_CAP = 60     # seconds per BFS shard; reported as a cap when hit
 META = {
     "level": "model_checking",
     "technique": "explicit-state BFS over operation histories on real Channel objects (prefix replay, canonical state merging)",
-    "text": "Every history up to depth d (quick 4 / thorough 6) over send/send_stderr/recv/recv_stderr with threshold-class "
+    "text": "Every history up to depth d (quick 4 / thorough 5) over send/send_stderr/recv/recv_stderr with threshold-class "
             "sizes, deliveries in both directions and peer EXTENDED_DATA with type codes 0..5, for window/packet "
             "configurations around the threshold classes, from the initial state and from injected non-initial "
             "states on the conservation frontier; in every state: no stuck state; from every new state the fair "
@@ -186,7 +186,7 @@ def main(tier):
                     "canonical states (config, counters)",
                     ["ChannelPair dispatch = the run loop's handler lookup, replicated by the harness",
                      "sizes drawn from threshold classes {1, T, T+1, P-64, all}"])
-    depth = 4 if tier == "quick" else 6
+    depth = 4 if tier == "quick" else 5
     inj_depth = 3 if tier == "quick" else 4
     items = []
     for c in configs(tier):
